@@ -224,3 +224,169 @@ Proof.
 Qed.
 
 End Jsr.
+
+(* ------------------------------------------------------------------ *)
+(* C04 for RouterJSR311: the capture groups, paired with VarNames, are the structural bindings *)
+Definition tok_rel2 (en : etok * option str) (v : vtok) : Prop :=
+  conv (v_tk v) = Some (fst en) /\ snd en = tk_name (v_tk v).
+Definition names_of (ets : list (etok * option str)) : list str :=
+  flat_map (fun e => match snd e with Some n => [n] | None => [] end) ets.
+
+Lemma opt_str_eqb_eq a b : opt_str_eqb a b = true -> a = b.
+Proof. destruct a, b; cbn; try discriminate; try reflexivity. intros H. apply str_eqb_eq in H. now subst. Qed.
+
+Lemma agree_rel2 template :
+  tokens_agree template = true -> names_agree template = true ->
+  Forall2 tok_rel2 (map etok_of (filter (fun t => negb (str_eqb t [])) (tokenize template))) (jsr_tpl template).
+Proof.
+  unfold tokens_agree, names_agree, jsr_tpl.
+  induction (filter (fun t => negb (str_eqb t [])) (tokenize template)) as [|s l IH]; cbn [forallb map]; [constructor|].
+  intros H1 H2. apply andb_true_iff in H1 as [Hs Hl]. apply andb_true_iff in H2 as [Hn Hln].
+  constructor; [|now apply IH]. unfold tok_rel2. split.
+  - change (v_tk (parse_tok false s)) with (parse_tk s) in *. destruct (conv (parse_tk s)) as [e|] eqn:Ec; [|discriminate Hs].
+    apply etok_eqb_eq in Hs. now rewrite Hs.
+  - now apply opt_str_eqb_eq.
+Qed.
+
+Lemma rel2_rel ets vtoks : Forall2 tok_rel2 ets vtoks -> Forall2 tok_rel (map fst ets) vtoks.
+Proof. induction 1 as [|e v l l' [H _] Hl IH]; cbn; constructor; auto. Qed.
+
+Section JsrParams.
+Variable O : oracles.
+
+Lemma bind_step (en : etok * option str) v seg caps (rest_names : list str) rest_b :
+  tok_rel2 en v -> fst en <> EAll ->
+  zip_params (match snd en with Some n => [n] | None => [] end ++ rest_names)
+             (match fst en with ELit _ => caps | _ => seg :: caps end)
+  = match v_tk v with
+    | TLit _ => zip_params rest_names caps
+    | TVar n | TRx n _ | TSuf n _ => (n, seg) :: zip_params rest_names caps
+    | TTail n => rest_b
+    end.
+Proof.
+  destruct en as [e n]. unfold tok_rel2. cbn [fst snd]. intros [Hc Hn] Hne. subst n.
+  destruct (v_tk v); cbn in Hc; try discriminate Hc; injection Hc as <-; cbn; try reflexivity. now contradiction Hne.
+Qed.
+
+Lemma route_bindings_sound ets : forall vtoks p1 caps fin,
+  Forall2 tok_rel2 ets vtoks ->
+  jsr_match O (map fst ets) (slash :: p1) = Some (caps, fin) ->
+  zip_params (names_of ets) caps = jsr_bindings vtoks (split slash p1).
+Proof.
+  induction ets as [|en ets IH]; intros vtoks p1 caps fin Hrel Hm; inversion Hrel as [|? v ? vt Hv Hrest]; subst; cbn [map jsr_match] in Hm.
+  - rewrite Ascii.eqb_refl in Hm. cbn [andb] in Hm. destruct (no_newline (slash :: p1)); [|discriminate Hm]. injection Hm as <- <-. reflexivity.
+  - rewrite Ascii.eqb_refl in Hm. cbn [negb] in Hm.
+    destruct (split slash p1) as [|s0 segs0] eqn:Esp; [now contradiction (split_not_nil slash p1)|].
+    assert (Hgen : forall seg rest caps', span_seg p1 = (seg, rest) -> fst en <> EAll ->
+              jsr_match O (map fst ets) rest = Some (caps', fin) ->
+              caps = (match fst en with ELit _ => caps' | _ => seg :: caps' end) ->
+              zip_params (names_of (en :: ets)) caps = jsr_bindings (v :: vt) (s0 :: segs0)).
+    { intros seg rest caps' Es Hne Em ->. unfold names_of. cbn [flat_map jsr_bindings]. fold (names_of ets).
+      rewrite (bind_step en v seg caps' (names_of ets) [] Hv Hne).
+      destruct (span_seg_split p1 seg rest Es) as [[-> Hs]|(r1 & -> & Hs)]; rewrite Hs in Esp; injection Esp as <- <-.
+      - destruct ets; [|discriminate Em]. inversion Hrest; subst. cbn in Em. injection Em as <- <-.
+        destruct Hv as [Hc _]. destruct (v_tk v); cbn in *; try reflexivity; try discriminate Hc. injection Hc as Hc. exfalso. apply Hne. now symmetry.
+      - rewrite (IH vt r1 caps' fin Hrest Em).
+        destruct Hv as [Hc _]. destruct (v_tk v); cbn in *; try reflexivity; try discriminate Hc. injection Hc as Hc. exfalso. apply Hne. now symmetry. }
+    destruct (fst en) eqn:Ee.
+    + destruct (span_seg p1) as [seg rest] eqn:Es. destruct (str_eqb seg s); cbn [negb] in Hm; [|discriminate Hm].
+      destruct (jsr_match O (map fst ets) rest) as [[caps' fin']|] eqn:Em; [|discriminate Hm]. injection Hm as <- <-.
+      eapply Hgen; eauto. discriminate.
+    + destruct (span_seg p1) as [seg rest] eqn:Es. destruct (negb (str_eqb seg [])); cbn [negb] in Hm; [|discriminate Hm].
+      destruct (jsr_match O (map fst ets) rest) as [[caps' fin']|] eqn:Em; [|discriminate Hm]. injection Hm as <- <-.
+      eapply Hgen; eauto. discriminate.
+    + destruct (span_seg p1) as [seg rest] eqn:Es. destruct (o_rxfull O re seg); cbn [negb] in Hm; [|discriminate Hm].
+      destruct (jsr_match O (map fst ets) rest) as [[caps' fin']|] eqn:Em; [|discriminate Hm]. injection Hm as <- <-.
+      eapply Hgen; eauto. discriminate.
+    + destruct ets; [|discriminate Hm]. inversion Hrest; subst. cbn [map] in Hm.
+      destruct (no_newline p1); [|discriminate Hm]. injection Hm as <- <-.
+      destruct Hv as [Hc Hn]. rewrite ?Ee in Hc. unfold names_of. cbn [flat_map]. rewrite Hn.
+      destruct (v_tk v) eqn:Ev; cbn in Hc; try discriminate Hc. cbn [tk_name app zip_params jsr_bindings]. rewrite Ev.
+      now rewrite <- Esp, join_split.
+Qed.
+
+Lemma two_phase_bindings ra : forall rt p1 c1 f1 rb tt c2 f2,
+  Forall2 tok_rel2 ra rt -> Forall2 tok_rel2 rb tt ->
+  jsr_match O (map fst ra) (slash :: p1) = Some (c1, f1) ->
+  jsr_match O (map fst rb) f1 = Some (c2, f2) ->
+  zip_params (names_of ra) c1 ++ zip_params (names_of rb) c2 = jsr_bindings (rt ++ tt) (split slash p1).
+Proof.
+  induction ra as [|en ra IH]; intros rt p1 c1 f1 rb tt c2 f2 Hra Hrb Hm1 Hm2; inversion Hra as [|? v ? vt Hv Hrest]; subst; cbn [map jsr_match] in Hm1.
+  - rewrite Ascii.eqb_refl in Hm1. cbn [andb] in Hm1. destruct (no_newline (slash :: p1)); [|discriminate Hm1]. injection Hm1 as <- <-.
+    cbn [app names_of flat_map zip_params]. eapply route_bindings_sound; eauto.
+  - rewrite Ascii.eqb_refl in Hm1. cbn [negb] in Hm1.
+    destruct (split slash p1) as [|s0 segs0] eqn:Esp; [now contradiction (split_not_nil slash p1)|].
+    assert (Hgen : forall seg rest caps', span_seg p1 = (seg, rest) -> fst en <> EAll ->
+              jsr_match O (map fst ra) rest = Some (caps', f1) ->
+              c1 = (match fst en with ELit _ => caps' | _ => seg :: caps' end) ->
+              zip_params (names_of (en :: ra)) c1 ++ zip_params (names_of rb) c2 = jsr_bindings ((v :: vt) ++ tt) (s0 :: segs0)).
+    { intros seg rest caps' Es Hne Em ->. unfold names_of. cbn [flat_map app jsr_bindings]. fold (names_of ra).
+      rewrite (bind_step en v seg caps' (names_of ra) [] Hv Hne).
+      destruct (span_seg_split p1 seg rest Es) as [[-> Hs]|(r1 & -> & Hs)]; rewrite Hs in Esp; injection Esp as <- <-.
+      - destruct ra; [|discriminate Em]. inversion Hrest; subst. cbn in Em. injection Em as <- <-.
+        destruct rb; [|discriminate Hm2]. inversion Hrb; subst. cbn in Hm2. injection Hm2 as <- <-.
+        destruct Hv as [Hc _]. destruct (v_tk v); cbn in *; try reflexivity; try discriminate Hc. injection Hc as Hc. exfalso. apply Hne. now symmetry.
+      - pose proof (IH vt r1 caps' f1 rb tt c2 f2 Hrest Hrb Em Hm2) as Hrec.
+        destruct Hv as [Hc _]. destruct (v_tk v); cbn in *; try (now rewrite <- Hrec); try discriminate Hc. injection Hc as Hc. exfalso. apply Hne. now symmetry. }
+    destruct (fst en) eqn:Ee.
+    + destruct (span_seg p1) as [seg rest] eqn:Es. destruct (str_eqb seg s); cbn [negb] in Hm1; [|discriminate Hm1].
+      destruct (jsr_match O (map fst ra) rest) as [[caps' fin']|] eqn:Em; [|discriminate Hm1]. injection Hm1 as <- <-.
+      eapply Hgen; eauto. discriminate.
+    + destruct (span_seg p1) as [seg rest] eqn:Es. destruct (negb (str_eqb seg [])); cbn [negb] in Hm1; [|discriminate Hm1].
+      destruct (jsr_match O (map fst ra) rest) as [[caps' fin']|] eqn:Em; [|discriminate Hm1]. injection Hm1 as <- <-.
+      eapply Hgen; eauto. discriminate.
+    + destruct (span_seg p1) as [seg rest] eqn:Es. destruct (o_rxfull O re seg); cbn [negb] in Hm1; [|discriminate Hm1].
+      destruct (jsr_match O (map fst ra) rest) as [[caps' fin']|] eqn:Em; [|discriminate Hm1]. injection Hm1 as <- <-.
+      eapply Hgen; eauto. discriminate.
+    + destruct ra; [|discriminate Hm1]. inversion Hrest; subst. cbn [map] in Hm1.
+      destruct (no_newline p1); [|discriminate Hm1]. injection Hm1 as <- <-.
+      destruct rb; [|discriminate Hm2]. inversion Hrb; subst. cbn in Hm2. injection Hm2 as <- <-.
+      destruct Hv as [Hc Hn]. rewrite ?Ee in Hc. unfold names_of. cbn [flat_map]. rewrite Hn.
+      destruct (v_tk v) eqn:Ev; cbn in Hc; try discriminate Hc. cbn [tk_name app zip_params jsr_bindings]. rewrite Ev.
+      cbn [names_of flat_map zip_params app]. now rewrite <- Esp, join_split.
+Qed.
+
+Lemma pe_toks_map template :
+  pe_toks (path_expression template) = map fst (map etok_of (filter (fun t => negb (str_eqb t [])) (tokenize template))).
+Proof. reflexivity. Qed.
+Lemma pe_names_map template :
+  pe_names (path_expression template) = names_of (map etok_of (filter (fun t => negb (str_eqb t [])) (tokenize template))).
+Proof. reflexivity. Qed.
+
+(* the parameters RouterJSR311 hands to the route function are the structural bindings of root + route
+   template on the path's segments *)
+Theorem jsr_invoked_params t req w r ps :
+  t_router t = Jsr311 -> route_request O t req = RInvoke w r ps ->
+  jsr_tokens_agree w r = true -> jsr_names_agree w r = true ->
+  ps = fold_left (fun m kv => pset (fst kv) (snd kv) m) (jsr_route_bindings w r (rq_path req)) [].
+Proof.
+  intros Hr H Hag Hna. unfold route_request in H.
+  destruct (select_route O t req) as [[w0 r0]|e] eqn:Hs; [|discriminate H].
+  unfold extract_parameters in H. rewrite Hr in H.
+  destruct (jsr_extract_parameters O w0 r0 (rq_path req)) as [l|] eqn:He; [|discriminate H]. injection H as -> -> <-.
+  f_equal.
+  apply andb_true_iff in Hag as [Hagw Hagr]. apply andb_true_iff in Hna as [Hnaw Hnar].
+  pose proof (agree_rel2 _ Hagw Hnaw) as Rw. pose proof (agree_rel2 _ Hagr Hnar) as Rr.
+  (* what selection established *)
+  unfold select_route in Hs. rewrite Hr in Hs.
+  destruct (detect_dispatcher O (rq_path req) (t_services t)) as [[w1 fin]|] eqn:Ed; [|discriminate Hs].
+  destruct (jsr_select_routes O w1 fin) as [|c0 cs] eqn:Ec; [discriminate Hs|]. rewrite <- Ec in Hs.
+  destruct (detect_route (map rc_route (jsr_select_routes O w1 fin)) req) as [r1|e] eqn:Edr; [|discriminate Hs].
+  injection Hs as -> ->.
+  apply detect_route_inl in Edr as (Hin & _). apply in_map_iff in Hin as (c & <- & Hcin).
+  apply jsr_select_routes_sound in Hcin as (_ & caps2 & fin2 & Hm2 & _).
+  apply detect_dispatcher_sound in Ed as (_ & caps1 & Hm1).
+  unfold jsr_extract_parameters in He. cbv zeta in He. rewrite Hm1, Hm2 in He. injection He as <-.
+  unfold jsr_route_bindings. rewrite pe_toks_map in Hm1, Hm2.
+  fold (names_of (map etok_of (filter (fun t0 : str => negb (str_eqb t0 [])) (tokenize (s_root w))))).
+  fold (names_of (map etok_of (filter (fun t0 : str => negb (str_eqb t0 [])) (tokenize (r_rel (rc_route c)))))).
+  destruct (rq_path req) as [|ch p1] eqn:Ep.
+  - destruct (map etok_of (filter (fun t0 => negb (str_eqb t0 [])) (tokenize (s_root w)))) as [|e l]; [|discriminate Hm1].
+    cbn in Hm1. injection Hm1 as <- <-.
+    destruct (map etok_of (filter (fun t0 => negb (str_eqb t0 [])) (tokenize (r_rel (rc_route c))))) as [|e l]; [|discriminate Hm2].
+    cbn in Hm2. injection Hm2 as <- <-. reflexivity.
+  - pose proof (jsr_match_nonempty_path O _ _ _ _ _ Hm1). subst ch. unfold path_segs. rewrite Ascii.eqb_refl.
+    eapply two_phase_bindings; eauto.
+Qed.
+
+End JsrParams.
